@@ -426,3 +426,35 @@ def walk_stmts(n):
             yield x
             if x.get('kind') != 'LambdaExpr':
                 stack.extend(reversed(x.get('inner', [])))
+
+
+def member_default_args_hook(name, objtype_rx, cname, callee_decl):
+    """`obj.name(a, b)` of a method with default arguments -> `cname(&obj, a, b, <default>)`: clang prints an omitted argument
+    as a bare CXXDefaultArgExpr; its value is read from the default of the callee's own ParmVarDecl (`callee_decl()` returns the
+    method's declaration from the current source), so a change of the default flows into every call site."""
+    def h(P, n):
+        if n.get('kind') != 'CXXMemberCallExpr':
+            return None
+        me = n['inner'][0]
+        if me.get('kind') != 'MemberExpr' or me.get('name') != name or not re.search(objtype_rx, qual(me['inner'][0]['type'])):
+            return None
+        params = [c for c in callee_decl()['inner'] if c.get('kind') == 'ParmVarDecl']
+        args = n['inner'][1:]
+        if len(args) != len(params):
+            raise Unsupported(f'{name}: {len(args)} arguments for {len(params)} parameters')
+        out = []
+        for a, p in zip(args, params):
+            u = a
+            while u.get('kind') in ('ExprWithCleanups', 'MaterializeTemporaryExpr', 'CXXBindTemporaryExpr') and u.get('inner'):
+                u = u['inner'][0]
+            if u.get('kind') == 'CXXDefaultArgExpr':
+                init = [c for c in p.get('inner', []) if c.get('kind') != 'FullComment']
+                if not init:
+                    raise Unsupported(f'{name}: default of parameter {p.get("name")} is not in the dump')
+                out.append(P.expr(init[0]))
+            else:
+                out.append(P.arg(a))
+        obj = me['inner'][0]
+        P.note(f'{name}(...) with default arguments -> {cname}')
+        return f'{cname}({P.expr(obj) if me.get("isArrow") else P.addr(obj)}{"".join(", " + x for x in out)})'
+    return h
